@@ -127,12 +127,17 @@ class _Purity(ast.NodeVisitor):
     def generic_visit(self, node):
         if not isinstance(node, self.OK):
             self.pure = False
+        if isinstance(node, ast.Name) and node.id in ('super', '__class__'):
+            self.pure = False     # zero-argument super() is compiler magic tied to its method
         super().generic_visit(node)
 
 
-def is_pure(node):
+def is_pure(node, immutable=False):
     v = _Purity()
     v.visit(node)
+    if immutable and any(isinstance(n, (ast.List, ast.Dict, ast.Set)) for n in ast.walk(node)):
+        # inlining re-creates the object at every use: only equivalent for immutable values
+        return False
     return v.pure
 
 
@@ -202,11 +207,18 @@ def statement_ranges(text):
         for i in range(len(body)):
             for j in range(i, len(body)):
                 a, b = body[i], body[j]
-                out.append({'start': (a.lineno, execute.char_col(lines[a.lineno - 1], a.col_offset)),
+                start = (a.lineno, execute.char_col(lines[a.lineno - 1], a.col_offset))
+                txt = '\n'.join(lines[a.lineno - 1:b.end_lineno])
+                # (a) whole lines: until_column=None, which Script turns into the length of
+                #     the line including its newline - the convention of upstream's own tests
+                out.append({'start': start, 'end': (b.end_lineno, None), 'conv': 'whole-lines',
+                            'pure': False, 'kind': 'stmts[%d:%d]' % (i, j + 1), 'text': txt})
+                # (b) end of the statement text (what an editor selection without the newline is)
+                out.append({'start': start,
                             'end': (b.end_lineno, execute.char_col(lines[b.end_lineno - 1],
                                                                   b.end_col_offset)),
-                            'pure': False, 'kind': 'stmts[%d:%d]' % (i, j + 1),
-                            'text': '\n'.join(lines[a.lineno - 1:b.end_lineno])})
+                            'conv': 'text-end', 'pure': False,
+                            'kind': 'stmts[%d:%d]' % (i, j + 1), 'text': txt})
     return out
 
 
@@ -232,7 +244,7 @@ def single_assignments(text):
                 nm = st.targets[0]
                 if len(stores.get(nm.id, [])) == 1:
                     out.append({'name': nm.id, 'pos': char_pos(lines, nm.lineno, nm.col_offset),
-                                'pure': is_pure(st.value)})
+                                'pure': is_pure(st.value, immutable=True)})
     seen = set()
     res = []
     for o in out:
@@ -439,8 +451,9 @@ def _levels(tier):
         lv.append(('PF depth2 core pairs x {inst}: expression nodes, statements, inline',
                    [dict(kind='pf', src='inst', chain=c, regimes=R1)
                     for _, c in pf.enumerate_programs(2, ['inst'], core)]))
-        lv.append(('shaped + PF depth1 core: all character sub-ranges (clause A)',
+        lv.append(('shaped + PF depth<=1 core: all character sub-ranges (clause A)',
                    [dict(t, regimes=['chars']) for t in shaped]
+                   + [dict(kind='pf', src='inst', chain=[], regimes=['chars'])]
                    + [dict(kind='pf', src='inst', chain=[c], regimes=['chars']) for c in core]))
     return lv
 
